@@ -79,7 +79,7 @@ def scan_harnesses():
                 k, _, v = tok.partition("=")
                 meta[k] = v
             name = None
-            for j in range(i + 1, min(i + 12, len(lines))):
+            for j in range(i + 1, min(i + 30, len(lines))):
                 m = re.match(r"\s*(?:pub(?:\(crate\))?\s+)?fn\s+(\w+)\s*\(", lines[j])
                 if m:
                     name = m.group(1)
@@ -112,11 +112,14 @@ def select(harnesses, prop, tier, only=None):
     for h in harnesses:
         if only and not any(o in h["full"] for o in only):
             continue
-        if tier == "quick" and h["tier"] != "quick":
+        # `tier_<prop>=...` overrides the harness tier for one property (e.g. tier_C04=thorough keeps an expensive
+        # harness out of C04's quick command while it stays in the quick command of the property it decides)
+        ht = h.get("tier_" + prop, h["tier"]) if prop != "all" else h["tier"]
+        if tier == "quick" and ht != "quick":
             continue
-        if tier == "thorough" and h["tier"] not in ("quick", "thorough"):
+        if tier == "thorough" and ht not in ("quick", "thorough"):
             continue
-        if h["tier"] == "off":
+        if ht == "off" or h["tier"] == "off":
             continue
         if prop == "all" or prop in h["props"]:
             sel.append(h)
@@ -132,8 +135,46 @@ def select(harnesses, prop, tier, only=None):
 # process running
 # ------------------------------------------------------------------------------------------------
 
-def run_group(cmd, cwd, env, timeout, mem_gb, log_path):
+def _poll_rss(stop, marker, peaks):
+    """Record the peak resident size (GB) of every cbmc process whose command line mentions `marker`,
+    keyed by the goto-binary file name (which carries the mangled harness name)."""
+    while not stop.is_set():
+        try:
+            for pid in os.listdir("/proc"):
+                if not pid.isdigit():
+                    continue
+                try:
+                    cl = open(f"/proc/{pid}/cmdline", "rb").read().decode(errors="replace")
+                    if "cbmc" not in cl[:200] or marker not in cl:
+                        continue
+                    m = re.search(r"([A-Za-z0-9_]+)\.out", cl)
+                    rss = 0
+                    for ln in open(f"/proc/{pid}/status"):
+                        if ln.startswith("VmRSS:"):
+                            rss = int(ln.split()[1]) / (1 << 20)
+                    key = m.group(1) if m else pid
+                    if rss > peaks.get(key, 0):
+                        peaks[key] = rss
+                except (OSError, ValueError):
+                    continue
+        except OSError:
+            pass
+        stop.wait(2.0)
+
+
+def run_group(cmd, cwd, env, timeout, mem_gb, log_path, rss_marker=None, peaks=None):
     """Run cmd in its own session; kill the whole process group on timeout.  Returns (rc, timed_out, wall)."""
+    import threading
+    stop = threading.Event()
+    if rss_marker and peaks is not None:
+        threading.Thread(target=_poll_rss, args=(stop, rss_marker, peaks), daemon=True).start()
+    try:
+        return _run_group(cmd, cwd, env, timeout, mem_gb, log_path)
+    finally:
+        stop.set()
+
+
+def _run_group(cmd, cwd, env, timeout, mem_gb, log_path):
     def pre():
         os.setsid()
         lim = int(mem_gb * GB)
@@ -199,7 +240,7 @@ def parse_harness_output(text):
 
 def run_kani(work, ws, package, hs, jobs, mem_gb, extra=None, tag="k"):
     """One cargo-kani invocation for `hs` (all of one package).  Returns {full_name: parsed}."""
-    tdir = os.path.join(work, "target-" + (package or "root"))
+    tdir = os.path.join(work, "target-" + (package or "root") + "-" + tag)
     rdir = os.path.join(tdir, "result_output_dir")
     if os.path.isdir(rdir):
         shutil.rmtree(rdir)
@@ -215,7 +256,9 @@ def run_kani(work, ws, package, hs, jobs, mem_gb, extra=None, tag="k"):
         cmd += extra
     log = os.path.join(work, f"kani-{tag}-{package or 'root'}.log")
     waves = (len(hs) + jobs - 1) // jobs
-    rc, to, wall = run_group(cmd, ws, base_env(work), timeout=cap * waves + 900, mem_gb=mem_gb, log_path=log)
+    peaks = {}
+    rc, to, wall = run_group(cmd, ws, base_env(work), timeout=cap * waves + 900, mem_gb=mem_gb, log_path=log,
+                             rss_marker=tdir, peaks=peaks)
     logtxt = open(log, errors="replace").read()
     res = {}
     for h in hs:
@@ -228,7 +271,11 @@ def run_kani(work, ws, package, hs, jobs, mem_gb, extra=None, tag="k"):
             r = dict(checks=[], verdict=None, time_s=None, oom=False, timeout=to, stubs=[], raw_tail="")
         # terse log carries timeouts / crashes per harness
         r["driver_rc"] = rc
+        h["_tag"] = tag
         r["cmd"] = " ".join(shlex.quote(c) for c in cmd)
+        # mangled names end with <len><fn name>
+        pk = [v for k, v in peaks.items() if k.endswith(str(len(h["name"])) + h["name"])]
+        r["peak_rss_gb"] = round(max(pk), 2) if pk else None
         res[h["full"]] = r
     compile_error = ("error: could not compile" in logtxt) or ("Failed to execute cargo" in logtxt)
     unsupported = re.findall(r"(?:unsupported|not currently supported)[^\n]*", logtxt)
@@ -239,7 +286,7 @@ def run_kani(work, ws, package, hs, jobs, mem_gb, extra=None, tag="k"):
 
 def kani_trace_values(work, ws, package, h, mem_gb=24):
     """Re-run one failing harness with a CBMC trace; return ({check_id: [values]}, raw excerpt)."""
-    tdir = os.path.join(work, "target-" + (package or "root"))
+    tdir = os.path.join(work, "target-" + (package or "root") + "-" + h.get("_tag", "n"))
     cmd = ["cargo", "kani"]
     if package:
         cmd += ["-p", package]
@@ -325,6 +372,17 @@ def run_verus(work, path, timeout=600):
 # ------------------------------------------------------------------------------------------------
 # misc
 # ------------------------------------------------------------------------------------------------
+
+COSTS_FILE = os.path.join(VERIF, "selftest", "costs.json")
+
+
+def load_costs():
+    """Measured verification time and peak memory per harness on the pinned tree (scheduling hints only)."""
+    try:
+        return json.load(open(COSTS_FILE))
+    except (OSError, ValueError):
+        return {}
+
 
 def known_findings():
     p = os.path.join(VERIF, "KNOWN_FINDINGS.json")
